@@ -42,6 +42,7 @@ func cmdSeq(args []string) {
 	nopeek := fs.Bool("nopeek", false, "do not use the introspection hook")
 	prop := fs.String("prop", "", "property id panics and hangs are attributed to")
 	memEvery := fs.Int("memevery", 7, "every n-th history uses a memory-only store (0: never)")
+	obsCtx := fs.String("obsctx", "", "attribute unlabelled observations to this property")
 	viewBin := fs.String("viewbin", "", "path of the tools/view binary built from /repo (C09: run it on a read-only copy of the final image)")
 	fs.Parse(args)
 	p, ok := profiles[*prof]
@@ -67,6 +68,7 @@ func cmdSeq(args []string) {
 		nw.usePeek = !*nopeek
 		nw.prop = *prop
 		nw.viewBin = *viewBin
+		nw.obsCtx = *obsCtx
 		nw.scratch = *out + ".img"
 		if w != nil {
 			nw.nEvents = w.nEvents
